@@ -615,6 +615,7 @@ def decide(prop, tier, seed, t0):
     # 2. harness against the current tree
     hok, hout = build_harness()
     inputs, meta, obs, verdicts = [], {}, [], []
+    n_corpus = 0
     if not hok:
         broken.append(dict(what='correspondence', name='harness does not build against the current tree', detail=hout[-3000:]))
     elif ok:
@@ -622,6 +623,7 @@ def decide(prop, tier, seed, t0):
             inputs, meta = gen_inputs(pid, tier, seed)
             corp = corpus_inputs(pid)
             meta['corpus_inputs_run_first'] = len(corp)
+            n_corpus = len(corp)
             inputs = corp + inputs
             if prop.get('gen_extra'):
                 inputs = inputs + prop['gen_extra'](tier, seed)
@@ -644,7 +646,9 @@ def decide(prop, tier, seed, t0):
     fails = [i for i, v in enumerate(verdicts) if v is not None and v[0] == 2]
     disag = [i for i, v in enumerate(verdicts) if v is not None and v[0] == 1]
     undec = [i for i, v in enumerate(verdicts) if v is not None and v[0] == 3]
-    invalid = [i for i, v in enumerate(verdicts) if v is None]
+    # a corpus input the harness no longer understands (formats evolve; C19's refer to compiled-in sequences) is skipped
+    invalid = [i for i, v in enumerate(verdicts) if v is None and i >= n_corpus]
+    meta['corpus_inputs_no_longer_valid'] = sum(1 for i, v in enumerate(verdicts) if v is None and i < n_corpus)
     if undec:
         broken.append(dict(what='correspondence', name='Corr.%s decoder' % prop['corr'], detail='%d cases could not be decoded, e.g. %s' % (len(undec), canon([inputs[undec[0]], obs[undec[0]]])[:600])))
     if invalid and len(invalid) > 0:
